@@ -52,3 +52,7 @@ package sharder
 //@   ensures[elementwise] result == (len(s) == len(other) && (forall j int :: 0 <= j && j < len(s) ==> s[j] == other[j]))
 //@   loop 1 invariant len(s) == len(other) && (forall j int :: 0 <= j && j < i ==> s[j] == other[j])
 //@   modifies nothing
+
+// ---- C35: the partition table is replaced by the peer-update callback while every router goroutine reads it
+//@ guarded_by sharder.DeterministicSharder.peerLock: peers, hashes
+//@ lockdiscipline sharder.DeterministicSharder peerLock props C35 skip: Start
